@@ -1,4 +1,5 @@
 """core orchestration for /verif/check (see DESIGN.md section 5)."""
+import glob
 import os, sys, json, time, re, subprocess, hashlib, fcntl, shutil, glob, concurrent.futures as cf
 
 VERIF = os.path.dirname(os.path.dirname(os.path.abspath(__file__)))
@@ -395,6 +396,12 @@ def exec_script(ctx, comp, script, tag, want_model=True, race=False, env=None, t
             model[j] = l
         if rc != 0 or len(got) < len(script):
             ctx.broken.append(('model', 'model driver stopped on component %s (rc=%s, %d/%d lines): %s' % (comp.name, rc, len(got), len(script), (err or '')[-200:])))
+    # everything is in memory now: the files of this script are not needed any more (a thorough sweep kept ~100 GB of them)
+    for f in glob.glob(os.path.join(ctx.work, glob.escape(tag) + '.*')):
+        try:
+            os.remove(f)
+        except OSError:
+            pass
     return impl, model, crashes
 
 
@@ -465,6 +472,7 @@ def run_component(ctx, comp, scale=1.0):
         s = derive_seed(ctx.seed, comp.name, ctx.tier, i, scale)
         jobs.append(('gen-%d' % i, (s, per)))
     results = []
+    stat_parts = []
 
     def work(job):
         tag, payload = job
@@ -473,7 +481,19 @@ def run_component(ctx, comp, scale=1.0):
         else:
             script = payload
         impl, model, crashes = exec_script(ctx, comp, script, '%s-%s' % (comp.name, tag), want_model=comp.differential, race=comp.race, env=comp.env, timeout=comp.timeout)
-        return evaluate(ctx, comp, script, impl, model, crashes)
+        rs = evaluate(ctx, comp, script, impl, model, crashes)
+        if ctx.tier == 'thorough':
+            # memory: a thorough run holds 10^5 cases. The distribution statistics are taken per chunk (merged below); cases
+            # without a finding then keep only what the evidence samples may show
+            if comp.stats:
+                try:
+                    stat_parts.append(comp.stats(rs))
+                except Exception as e:
+                    stat_parts.append({'stats-error': repr(e)})
+            for r in rs:
+                if not r.problems and r.mismatch is None and not r.crash:
+                    r.script, r.impl, r.model = r.script[:40], [str(x)[:200] for x in (r.impl or [])[:40]], None
+        return rs
 
     with cf.ThreadPoolExecutor(max_workers=min(NCPU, len(jobs))) as ex:
         for rs in ex.map(work, jobs):
@@ -501,10 +521,33 @@ def run_component(ctx, comp, scale=1.0):
             ctx.cov['mismatches'] += 1
     if comp.stats:
         try:
-            st['distribution'] = comp.stats([r for r in results])
+            st['distribution'] = merge_stats(stat_parts) if stat_parts else comp.stats([r for r in results])
         except Exception as e:
             st['distribution'] = 'stats-error %r' % (e,)
     return results
+
+
+def merge_stats(parts):
+    """merge per-chunk distribution statistics: numbers add (keys starting with max/min take the max/min), dicts merge
+    recursively, lists are concatenated up to 20 items, anything else: first value"""
+    out = {}
+    for p in parts:
+        if not isinstance(p, dict):
+            continue
+        for k, v in p.items():
+            if k not in out or out[k] is None:
+                out[k] = v
+            elif v is None:
+                pass
+            elif isinstance(v, bool) or isinstance(out[k], bool):
+                out[k] = out[k] or v
+            elif isinstance(v, (int, float)) and isinstance(out[k], (int, float)):
+                out[k] = max(out[k], v) if str(k).startswith('max') else min(out[k], v) if str(k).startswith('min') else out[k] + v
+            elif isinstance(v, dict) and isinstance(out[k], dict):
+                out[k] = merge_stats([out[k], v])
+            elif isinstance(v, list) and isinstance(out[k], list):
+                out[k] = (out[k] + v)[:20]
+    return out
 
 
 # ----------------------------------------------------------------------------------------------------------
